@@ -75,7 +75,10 @@ func (dtm *GraphsyncFilecoinV1) ReadFrom(r io.Reader) (n int64, err error) {
 	}
 
 	nb := graphSyncFilecoinV1Prototype.NewBuilder()
-	err = dagcbor.Decode(nb, cr)
+	err = dagcbor.DecodeOptions{
+		AllowLinks:         true,
+		DontParseBeyondEnd: true,
+	}.Decode(nb, cr)
 	if err != nil {
 		return cr.readCount, err
 	}
